@@ -62,6 +62,7 @@ def run(ctx):
     r.rule("C20.filter", "the filter only removes; keeps by line membership under the rule's own id; unlisted rule -> empty")
     r.rule("C20.forwarding", "the --fix_only dictionary reaches every Rule.fix call")
     r.rule("C20.nothing-else", "had_violations is set only per applied fix")
+    r.rule("C20.position", "a fix rewrites token text only at the position its violation names, never at every matching token of the region (violations of one region share it; the others may have been filtered out)")
     r.rule("C20.aliasing", "no fix adds a loop-invariant token or token list to a list inside a loop (one object, several positions)")
     r.explanation = (
         "Dominance facts computed over the structured control flow of vsg.rule:Rule.fix; shape analysis of "
@@ -142,6 +143,7 @@ def run(ctx):
     _forwarding(r, p, cg, rule_cls, fix)
     _nothing_else(r, p, cg, fix)
     _aliasing(r, p, cg)
+    _position(r, ctx, p, cg)
     return r
 
 
@@ -424,11 +426,91 @@ def _nothing_else(r, p, cg, fix):
 
 _R = "vsg/rule.py"
 _RL = "vsg/rule_list.py"
+def _position(r, ctx, p, cg):
+    """Several violations of one rule can share a region of interest (the case rules report every token of a region
+    against the same region object and tell them apart by an index).  --fix_only removes some of them; a fix that walks
+    the region and rewrites every token that looks like its target also rewrites the filtered ones.  So: a text write
+    (set_value of something that is not blanks) reachable from a fix is never inside a loop over the region's tokens."""
+    from ..fixeffects import FixEffects, ws_locals
+    from ..model import expand_text
+    from ..summaries import Summaries
+
+    fx = FixEffects(ctx, Summaries(p, cg))
+    roots = [m for ci in p.classes.values() for name, m in ci.methods.items() if name == "_fix_violation" and ci.key != "vsg.rule:Rule"]
+    reach = cg.reachable(roots)
+    n_writes = 0
+    for k in sorted(reach):
+        fi = p.functions[k]
+        if not fi.module.name.startswith("vsg.rules"):
+            continue
+        ws = None
+        for c in walk_function(fi.node):
+            if not (isinstance(c, ast.Call) and isinstance(c.func, ast.Attribute) and c.func.attr == "set_value" and len(c.args) == 1):
+                continue
+            if ws is None:
+                ws = ws_locals(fi)
+            kind = fx._classify_value(fi, c.args[0], ws)
+            if kind == "WS" or kind.startswith("WSINS"):
+                continue
+            if kind.startswith("ACTION:") and fx.action_key_is_ws(fi.module, kind.split(":", 1)[1])[0]:
+                continue
+            n_writes += 1
+            kk = "%s:%s" % (fi.key, norm(c)[:70])
+            q = getattr(c, "_parent", None)
+            hit = None
+            while q is not None and q is not fi.node:
+                if isinstance(q, ast.For):
+                    it = expand_text(fi, q.iter)
+                    tg = {x.id for x in ast.walk(q.target) if isinstance(x, ast.Name)}
+                    recv_names = {x.id for x in ast.walk(c.func.value) if isinstance(x, ast.Name)}
+                    over_tokens = "get_tokens()" in it or any(pn in it.split("(")[-1] and pn in fi.params for pn in fi.params if pn.startswith("lTokens"))
+                    if over_tokens and (tg & recv_names):
+                        hit = q
+                q = getattr(q, "_parent", None)
+            if hit is not None:
+                r.fail("C20.position", kk, "`%s` runs for every token of the region that passes a test (`for %s in %s`), not for the one position the violation names: with --fix_only, tokens whose violations were filtered out are rewritten too" % (norm(c)[:50], norm(hit.target), norm(hit.iter)[:40]), fi.loc(c))
+            else:
+                r.ok("C20.position", kk, "one position per violation", sample=n_writes < 4)
+    r.extra["text_writes_in_fixes"] = n_writes
+    if n_writes < 8:
+        raise AnalysisError("only %d text writes found in fix code" % n_writes)
+
+
 def _aliasing(r, p, cg):
     roots = [m for ci in p.classes.values() for name, m in ci.methods.items() if name == "_fix_violation" and ci.key != "vsg.rule:Rule"]
     reach = cg.reachable(roots)
     n_loops = 0
     n_adds = 0
+    # _fix_violation is itself the body of the loop over the violations in Rule.fix: an attribute of the rule object is
+    # loop-invariant there, so adding the attribute's object itself (not a copy, not a new instance) to a token list puts
+    # one object at the position of every violation
+    from ..model import expand_text
+
+    n_attr = 0
+    for k in sorted(reach):
+        fi = p.functions[k]
+        if not fi.module.name.startswith("vsg.rules"):
+            continue
+        for c in walk_function(fi.node):
+            if not isinstance(c, ast.Call):
+                continue
+            fn = norm(c.func).split(".")[-1]
+            e = None
+            if fn == "insert_token" and len(c.args) >= 3:
+                e = c.args[2]
+            elif fn == "append_token" and len(c.args) >= 2:
+                e = c.args[1]
+            elif fn in ("insert", "append", "extend") and isinstance(c.func, ast.Attribute) and c.args and not norm(c.func.value).startswith("self."):
+                e = c.args[-1]
+            if e is None:
+                continue
+            n_attr += 1
+            t = expand_text(fi, e)
+            if t.startswith("self.") and "(" not in t and "[" not in t:
+                r.fail("C20.aliasing", "%s:rule-attribute:%s" % (fi.key, t), "`%s` adds the object held in the rule attribute %s itself to a token list; the fix runs once per violation, so every violation gets the same object: a later fix applied to one of these positions (a case fix selected for one line with --fix_only, its code tags, its indent) changes all of them" % (norm(c)[:60], t), fi.loc(c))
+    r.extra["token_list_additions_in_fixes"] = n_attr
+    if n_attr < 40:
+        raise AnalysisError("only %d additions to token lists found in fix code" % n_attr)
 
     def names(e):
         return {x.id for x in ast.walk(e) if isinstance(x, ast.Name)}
@@ -489,6 +571,16 @@ def _aliasing(r, p, cg):
 
 
 VARIANTS = [
+    Variant("C20", "optional keyword inserted by reference again (3b8518f reverted)", "fire",
+            [("vsg/rules/insert_token_right_of_token_if_it_does_not_exist_before_token.py", "rules_utils.insert_token(lTokens, 2, copy.deepcopy(self.insert_token))", "rules_utils.insert_token(lTokens, 2, self.insert_token)")],
+            rule="C20.aliasing", key="rule-attribute"),
+    Variant("C20", "twin: the copy of the optional keyword held in a local", "silent",
+            [("vsg/rules/insert_token_right_of_token_if_it_does_not_exist_before_token.py", "                rules_utils.insert_token(lTokens, 2, copy.deepcopy(self.insert_token))", "                oNew = copy.deepcopy(self.insert_token)\n                rules_utils.insert_token(lTokens, 2, oNew)")]),
+    Variant("C20", "formal-part case fix rewrites every formal of the region with the same text", "fire",
+            [("vsg/rules/token_case_formal_part_of_association_element_in_map_between_tokens.py", "        lTokens[dAction[\"index\"]].set_value(dAction[\"value\"])", "        sOld = lTokens[dAction[\"index\"]].get_value()\n        for oToken in lTokens:\n            if oToken.get_value() == sOld:\n                oToken.set_value(dAction[\"value\"])")],
+            rule="C20.position"),
+    Variant("C20", "twin: formal-part case fix names its token through a local", "silent",
+            [("vsg/rules/token_case_formal_part_of_association_element_in_map_between_tokens.py", "        lTokens[dAction[\"index\"]].set_value(dAction[\"value\"])", "        oFormal = lTokens[dAction[\"index\"]]\n        oFormal.set_value(dAction[\"value\"])")]),
     Variant("C20", "declaration split reuses the leading tokens for every new line", "fire",
             [("vsg/rules/separate_multiple_signal_identifiers_into_individual_statements.py", "        lFinalTokens = []\n        for oIdentifier in dAction[\"identifiers\"]:\n            lNewTokens = []\n", "        lDeclaration = lTokens[: dAction[\"start\"]]\n        lFinalTokens = []\n        for oIdentifier in dAction[\"identifiers\"]:\n            lFinalTokens.extend(lDeclaration)\n            lNewTokens = []\n")], rule="C20.aliasing"),
     Variant("C20", "twin: declaration split copies the leading tokens per line", "silent",
